@@ -1,9 +1,9 @@
 ------------------------------ MODULE RngCalls ------------------------------
 (* Lock sections on the instance RNG per API call (api.rs, encrypted_header.rs). *)
 EXTENDS Naturals
-Sections(call) == IF call \in {"encrypt", "header_md"} THEN 2 ELSE 1
+Sections(call) == IF call \in {"encrypt", "encrypt_big", "header_md"} THEN 2 ELSE 1
 Draws(call, k) == CASE call = "encaps" -> 2          \* S, then shuffling
-                    [] call \in {"encrypt", "header_md"} -> IF k = 1 THEN 2 ELSE 1   \* second section: the nonce
+                    [] call \in {"encrypt", "encrypt_big", "header_md"} -> IF k = 1 THEN 2 ELSE 1   \* second section: the nonce
                     [] call = "header" -> 2
                     [] call = "decaps" -> 1
                     [] OTHER -> 1
